@@ -95,6 +95,21 @@ func writeEvidence(prop, tier string, sel []*HarnessInfo, res map[string]*RunRes
 		"standard-library functions listed under coverage.intrinsics are engine models or harness stubs (trusted); all other library code on the explored paths is interpreted from its own SSA",
 		"native replay validates one reachability witness per check site (up to 4 per harness) and every counterexample before it is reported",
 	)
+	hasRace, hasSched := false, false
+	for _, h := range sel {
+		if r := res[h.Name]; r != nil && r.Race != nil {
+			hasRace = true
+		}
+		if h.Opts["sched"] == "explore" {
+			hasSched = true
+		}
+	}
+	if hasSched {
+		assumptions = append(assumptions, "goroutines run under a deterministic cooperative scheduler; harnesses marked sched=explore explore the schedules that deviate from the default one in at most preempt (quick) / preemptT (thorough) scheduling points; other schedules are outside")
+	}
+	if hasRace {
+		assumptions = append(assumptions, "race_monitor: a vector-clock happens-before monitor over the explored executions (go, channel, select, Mutex, Once, WaitGroup, atomic and sync.Pool operations order accesses as the Go memory model does, coarser for channels); only accesses made by library code (and standard-library code it calls) are checked; candidates are confirmed with go test -race before being reported")
+	}
 	ev := map[string]any{
 		"property_id": prop,
 		"tier":        tier,
